@@ -18,7 +18,14 @@ semantics of lib/PyDigest.v:
     (Hh), `unquote(x)` (Unq; checked to be urllib.parse's);
   * `try: ... except KeyError [as e]: ...` (no else/finally, no assignment
     inside, not nested);
-  * a call of the other translated function, passing the object.
+  * a call of the other translated function, passing the object;
+  * for the innermost function of check_digest (the request gate): its
+    closure variables (`realm`, `username` of check_digest; the endpoint
+    `fun` of wrapper) as parameters, `raise HTTPException(state.CONST,
+    kw=...)` (constant from state.py, keywords kept in source order),
+    `check_token(...)` (session.py's signature) through the Section variable
+    CT, the store `req.user = e`, and `return fun(req)` as the outcome
+    [pcall_endpoint req.user].
 
 Dropped by name: docstrings and `log.*(...)` statements (py2v.Unit.block).
 for/while/len and every call, method, subscript or statement not listed
@@ -37,19 +44,26 @@ SOURCE = "poorwsgi/digest.py"
 # order of the generated functions' leading parameters
 REQ_FIELDS = ["authorization", "method", "path", "query", "server_hostname",
               "app.auth_algorithm", "app.auth_qop", "app.auth_map"]
+GATE_FIELDS = REQ_FIELDS + ["headers", "secret_key", "user_agent",
+                            "app.auth_timeout"]
+STORES = {"req.user"}                   # attributes the gate may assign
 OBJECTS = {"req", "req.app"}            # canonical object paths
 HASHES = {"req.app.auth_hash": "Hh", "sha256": "Ho"}
 STRFUNS = {"unquote": "Unq"}
-IMPORTS = {"sha256": "hashlib", "unquote": "urllib.parse"}
+IMPORTS = {"sha256": "hashlib", "unquote": "urllib.parse",
+           "state": "poorwsgi", "HTTPException": "poorwsgi.response",
+           "check_token": "poorwsgi.session", "wraps": "functools"}
 CATCHABLE = {"KeyError"}
 SECTION_VARS = [("Hh", "list Z -> list Z"), ("Ho", "list Z -> list Z"),
-                ("Unq", "list Z -> list Z")]
+                ("Unq", "list Z -> list Z"),
+                ("CT", "pv -> pv -> pv -> pv -> res pv")]
 
 
 class DigestUnit(py2v.Unit):
     def __init__(self, **kw):
         super().__init__(**kw)
         self.objparams = {}     # callee name -> index of the object parameter
+        self.token_sig = None   # (params, defaults) of session.check_token
 
     # ---------------------------------------------------------------- names
     def resolve(self, env, name):
@@ -72,6 +86,8 @@ class DigestUnit(py2v.Unit):
                     raise Unsupported(node, "object used as a value")
                 if name in env:
                     return k(env[name])
+                if name.startswith("state.") and name[6:] in self.consts:
+                    return k("(PInt %s)" % py2v.zl(self.consts[name[6:]]))
                 raise Unsupported(node, "unknown name %s" % name)
         if isinstance(node, ast.Compare) and len(node.ops) == 1 and \
                 isinstance(node.ops[0], (ast.In, ast.NotIn)):
@@ -170,6 +186,36 @@ class DigestUnit(py2v.Unit):
                 len(node.args) == 1:
             return self.expr(cx, env, node.args[0], lambda a: self.bindk(
                 cx, "pstrfun %s %s" % (STRFUNS[fname], a), k))
+        if fname == "check_token" and fname not in env and \
+                self.token_sig is not None and not any(
+                    isinstance(a, ast.Starred) for a in node.args):
+            params, defaults = self.token_sig
+            kw = {}
+            for w in node.keywords:
+                if w.arg is None or w.arg in kw or w.arg not in params or \
+                        params.index(w.arg) < len(node.args):
+                    raise Unsupported(node, "keyword")
+                kw[w.arg] = w.value
+            if len(node.args) > len(params):
+                raise Unsupported(node, "too many arguments")
+            nodes = []
+            for i, p in enumerate(params):
+                if i < len(node.args):
+                    nodes.append(node.args[i])
+                elif p in kw:
+                    nodes.append(kw[p])
+                elif p in defaults:
+                    nodes.append(defaults[p])
+                else:
+                    raise Unsupported(node, "missing argument %s" % p)
+            return self.seq(cx, env, nodes, lambda items: self.bindk(
+                cx, " ".join(["CT"] + items), k))
+        if fname is not None and env.get(fname) == "@endpoint" and plain \
+                and len(node.args) == 1 and self.resolve(
+                    env, self.dotted(node.args[0])) == "req":
+            if "req.user" not in env:
+                raise Unsupported(node, "endpoint called before req.user")
+            return self.bindk(cx, "pcall_endpoint %s" % env["req.user"], k)
         if fname in self.callees and fname not in env and plain:
             gen, params, defaults = self.callees[fname]
             if len(node.args) > len(params):
@@ -188,7 +234,7 @@ class DigestUnit(py2v.Unit):
                     nodes.append(defaults[p])
                 else:
                     raise Unsupported(node, "missing argument %s" % p)
-            fields = [env["req." + f] for f in REQ_FIELDS]
+            fields = [env["req." + f] for f in REQ_FIELDS]  # callee's fields
             return self.seq(cx, env, nodes, lambda items: self.bindk(
                 cx, " ".join([gen] + fields + items), k))
         raise Unsupported(node, "call")
@@ -201,9 +247,23 @@ class DigestUnit(py2v.Unit):
 
         def after(env2):
             return self.block(cx, env2, rest, kend, loopk)
-        if isinstance(st, (ast.For, ast.While, ast.AugAssign, ast.Delete,
-                           ast.Raise)):
+        if isinstance(st, (ast.For, ast.While, ast.AugAssign, ast.Delete)):
             raise Unsupported(st, "statement")
+        if isinstance(st, ast.Raise):
+            exc = st.exc
+            if st.cause is not None or not isinstance(exc, ast.Call) or \
+                    self.dotted(exc.func) != "HTTPException" or \
+                    "HTTPException" in env or \
+                    any(isinstance(a, ast.Starred) for a in exc.args) or \
+                    any(w.arg is None for w in exc.keywords):
+                raise Unsupported(st, "raise")
+            npos = len(exc.args)
+            nodes = list(exc.args) + [w.value for w in exc.keywords]
+            return self.seq(cx, env, nodes, lambda items: (
+                'Err (Raised "HTTPException" (PTuple [%s]))' % "; ".join(
+                    items[:npos] + ["PTuple [PStr %s; %s]" % (
+                        strlit(w.arg), it) for w, it in zip(
+                            exc.keywords, items[npos:])])))
         if isinstance(st, ast.Assign):
             if len(st.targets) != 1:
                 raise Unsupported(st, "chained assignment")
@@ -238,6 +298,15 @@ class DigestUnit(py2v.Unit):
                 return self.expr(cx, env, st.value, lambda v: (
                     "pr <- punpack3 %s ;; let '(%s, %s, %s) := pr in\n%s" % (
                         v, vs[0], vs[1], vs[2], after(env2))))
+            # req.user = e
+            if isinstance(tgt, ast.Attribute):
+                name = self.resolve(env, self.dotted(tgt))
+                if name not in STORES or name not in self.fields_writable:
+                    raise Unsupported(st, "attribute store")
+                var = cx.fresh(name)
+                return self.expr(cx, env, st.value, lambda v: (
+                    "let %s := %s in\n%s" % (
+                        var, v, after(dict(env, **{name: var})))))
             if not isinstance(tgt, ast.Name):
                 raise Unsupported(st, "assignment target")
         if isinstance(st, ast.Try):
@@ -280,11 +349,17 @@ class DigestUnit(py2v.Unit):
                     join, jcode, body, exn, chain, join))
 
     # ------------------------------------------------------------ functions
-    def digest_function(self, fundef, gen_name):
+    def digest_function(self, fundef, gen_name, req_fields=REQ_FIELDS,
+                        closure=(), endpoint=None, stores=()):
         a = fundef.args
-        if a.vararg or a.kwarg or a.kwonlyargs or a.posonlyargs or \
-                fundef.decorator_list:
+        if a.vararg or a.kwarg or a.kwonlyargs or a.posonlyargs:
             raise Unsupported(fundef, "signature")
+        if endpoint is None:
+            if fundef.decorator_list:
+                raise Unsupported(fundef, "decorator")
+        elif [ast.dump(d) for d in fundef.decorator_list] != [ast.dump(
+                ast.parse("wraps(%s)" % endpoint, mode="eval").body)]:
+            raise Unsupported(fundef, "decorator")
         for node in ast.walk(fundef):
             if isinstance(node, (ast.Global, ast.Nonlocal, ast.FunctionDef,
                                  ast.Lambda, ast.Yield, ast.YieldFrom,
@@ -295,9 +370,16 @@ class DigestUnit(py2v.Unit):
         if not params:
             raise Unsupported(fundef, "no object parameter")
         obj, own = params[0], params[1:]
-        fields = ["req." + f for f in REQ_FIELDS]
-        text = self.function(fundef, gen_name, fields + own,
-                             init_env={obj: "@req"})
+        if len(set(params + list(closure) + [endpoint])) != \
+                len(params) + len(closure) + 1:
+            raise Unsupported(fundef, "shadowed name")
+        fields = ["req." + f for f in req_fields]
+        init = {obj: "@req"}
+        if endpoint is not None:
+            init[endpoint] = "@endpoint"
+        self.fields_writable = set(stores)
+        text = self.function(fundef, gen_name, fields + list(closure) + own,
+                             init_env=init)
         if "@" in text:
             raise Unsupported(fundef, "object escaped into a term")
         return params
@@ -396,9 +478,57 @@ def translate():
     unit.objparams["check_response"] = 0
     unit.digest_function(resp, "gen_check_response")
     cred = funs["check_credentials"]
-    unit.digest_function(cred, "gen_check_credentials")
+    cparams = unit.digest_function(cred, "gen_check_credentials")
+    # the request gate: check_digest(realm, username=None) -> wrapper(fun)
+    # -> handler(req)
+    outer = [n for n in tree.body if isinstance(n, ast.FunctionDef)
+             and n.name == "check_digest"]
+    if len(outer) != 1:
+        raise Unsupported(tree, "definitions of check_digest")
+    outer = outer[0]
+
+    def closure_shape(fun):
+        """[docstring,] def inner(...): ...; return inner"""
+        body = [st for st in fun.body if not (
+            isinstance(st, ast.Expr) and isinstance(st.value, ast.Constant)
+            and isinstance(st.value.value, str))]
+        a = fun.args
+        if len(body) != 2 or not isinstance(body[0], ast.FunctionDef) or \
+                not isinstance(body[1], ast.Return) or \
+                not isinstance(body[1].value, ast.Name) or \
+                body[1].value.id != body[0].name or \
+                a.vararg or a.kwarg or a.kwonlyargs or a.posonlyargs:
+            raise Unsupported(fun, "closure shape")
+        return body[0], [p.arg for p in a.args]
+    if outer.decorator_list:
+        raise Unsupported(outer, "decorator")
+    wrapper, oparams = closure_shape(outer)
+    if wrapper.decorator_list:
+        raise Unsupported(wrapper, "decorator")
+    handler, wparams = closure_shape(wrapper)
+    if len(wparams) != 1 or wrapper.args.defaults:
+        raise Unsupported(wrapper, "signature")
+    cdefaults = dict(zip(cparams[len(cparams) - len(cred.args.defaults):],
+                         cred.args.defaults))
+    unit.callees["check_credentials"] = ("gen_check_credentials", cparams,
+                                         cdefaults)
+    unit.objparams["check_credentials"] = 0
+    chk = py2v.find_function(py2v.parse("poorwsgi/session.py"),
+                             "check_token")
+    ca = chk.args
+    tparams = [p.arg for p in ca.args]
+    if len(tparams) != 4 or ca.vararg or ca.kwarg or ca.kwonlyargs or \
+            ca.posonlyargs:
+        raise Unsupported(chk, "check_token signature")
+    unit.token_sig = (tparams, dict(zip(
+        tparams[len(tparams) - len(ca.defaults):], ca.defaults)))
+    unit.consts = py2v.state_consts()
+    unit.digest_function(handler, "gen_digest_handler",
+                         req_fields=GATE_FIELDS, closure=oparams,
+                         endpoint=wparams[0], stores=STORES)
     return unit.write_digest(
-        "DigestGen.v", SOURCE + " check_response, check_credentials")
+        "DigestGen.v", SOURCE + " check_response, check_credentials, "
+        "check_digest (handler)")
 
 
 def register(TARGETS, OUTPUT):
